@@ -84,6 +84,17 @@ CHECKS["C07"] = dict(cat="translation_validation", ref="4 C07 / 11.6", engine="p
    technique="symbolic execution of the real Python code on int shadows (path feasibility over all constants decided by Z3); structural annotation-contract assertion per path",
    note=EXPR_NOTE + " C07 specific: the assertion itself is structural (set membership), the solver's part is the exhaustive path exploration over the constants; "
         "annotation plans are enumerated; relocate() returning a different object is outside the claim.")
+CHECKS["C09"] = dict(cat="translation_validation", ref="4 C09 / 11.7", engine="pysym",
+   text="Round trip through the real Z3 simplifier: every shape of the C01 pool (widths 8 and 32 quick) is instantiated with solver-generated constants "
+        "(up to two models of every construction path explored with symbolic constants, plus boundary vectors); claripy.simplify and backends.z3.simplify "
+        "must not raise, and Z3 decides convert(simplified) == independent reference term for every variable assignment. The same for float shapes "
+        "(both sorts, five rounding modes, NaN/infinity tests) and string shapes. Operator map: for every Z3 declaration kind with a mapping that can be "
+        "applied over BV8/Bool/Float64 terms, the application is abstracted, converted back and Z3 decides equivalence. solver.simplify() on "
+        "Solver/SolverComposite/SolverHybrid/SolverReplacement: the constraint set held before and after has the same models (Z3) and satisfiable() is unchanged.",
+   technique="real claripy + real Z3 simplifier on solver-generated constants; every equivalence decided by Z3 for all variable assignments",
+   note="Trusted: Z3 4.13.0 (also the simplifier under the round trip: C09 tests claripy's use of it), the z3py reference interpreter, z3py constructors for the "
+        "operator-map leg. Constants are NOT quantified (they cross libz3): they are witnesses generated by the solver per construction path plus boundary "
+        "values; Z3 rewrites that only fire on other constants are outside the claim. unknown (20 s cap) = inconclusive.")
 NOT_YET = {}
 NA = {
  "C20": "Real OS-thread preemption inside CPython and libz3 cannot be encoded by any engine available here; a stress run would be sampling, i.e. a different technique (DESIGN.md section 5).",
